@@ -22,7 +22,7 @@ EXPLANATION = (
     "(7) cursor coordinates and click positions are computed on the same text the layout was built from (self.get_text()[0], i.e. the masked text when a mask is set); (6) ALPHABET: valid_char of the numeric variants admits a character only under a membership test in a finite alphabet (or equality with '-'), never a Unicode predicate."
     ' Added after seed round 3: (9) ACCUM on calc_coords / calc_line_pos; (10) OFFSTEP on the position functions (End/Home never return `offset +- 1`); (11) after set_edit_text(), which clamps the cursor, the cursor is not updated relative to self.edit_pos in the same statement sequence.'
     ' Round 4: (12) LOOPFRESH on calc_coords; (13) the row bounds of Edit.move_cursor_to_coords (C09.10); (14) the UTF-8 scan bound (C11.12).'
-    ' Round-4 triage: (15) case-mapped alphabet tests are conjoined with isascii(), every accepting return of NumEdit.valid_char depends on the cursor position (nothing in front of a leading minus sign), validating regexes use fullmatch and re.ASCII with IGNORECASE; C10.6 now accepts any accepting return that is dominated by a bounding test (false alarm on the repaired valid_char corrected).'
+    ' Round-4 triage: (15) case-mapped alphabet tests are conjoined with isascii(), every accepting return of NumEdit.valid_char depends on the cursor position (nothing in front of a leading minus sign), validating regexes use fullmatch and re.ASCII with IGNORECASE; C10.6 now accepts any accepting return that is dominated by a bounding test (false alarm on the repaired valid_char corrected). Round 5: (16) column tests against the end of a layout segment are half-open.'
 )
 NOT_DECIDED = "Equality with the reference editor: row moves, preferred-column arithmetic, clip-mode view shift, click-to-offset mapping, leading-zero trimming arithmetic of IntEdit/NumEdit."
 ASSUMPTIONS = []
@@ -372,6 +372,38 @@ def rule_alphabet_strict(ctx: Ctx) -> RuleResult:
     return rr
 
 
+def rule_segment_half_open(ctx: Ctx) -> RuleResult:
+    """A layout segment that starts at screen column c and is w columns wide covers the columns c .. c + w - 1.
+    A column test against the segment's end has to be half-open (`col < c + s.sc`): with `<=` the column just
+    after the segment is still attributed to it, which is only harmless when an end-of-row hint follows - on a
+    wrapped row that ends one cell short (a double-width character pushed down) the cursor is put at the first
+    offset of the *next* row."""
+    from ..rules.util import linear
+
+    p = ctx.p
+    rr = RuleResult("POSBOUND", "C10.16", "a column is tested against the end of a layout segment (start + s.sc) half-open: `<` / `>=`, never `<=` / `>`", floor=1)
+    m = p.modules["urwid.text_layout"]
+    for fi in m.functions:
+        for c in fi.own_nodes():
+            if not isinstance(c, ast.Compare):
+                continue
+            items = [c.left, *c.comparators]
+            for a, op, b in zip(items, c.ops, items[1:]):
+                if not isinstance(op, (ast.Lt, ast.LtE, ast.Gt, ast.GtE)):
+                    continue
+                for end, col, end_right in ((b, a, True), (a, b, False)):
+                    L = linear(end)
+                    if not L or len([k for k in L if k]) < 2 or not any(k.endswith(".sc") and v == 1 for k, v in L.items()):
+                        continue
+                    # col OP end (end on the right) must be `<` or `>=`; end OP col must be `>` or `<=`
+                    ok = isinstance(op, (ast.Lt, ast.GtE)) if end_right else isinstance(op, (ast.Gt, ast.LtE))
+                    txt = ast.unparse(ast.Compare(left=a, ops=[op], comparators=[b]))
+                    rr.inst(f"{short(fi)}:{txt}", True, {"function": short(fi), "comparison": txt, "half_open": ok})
+                    if not ok:
+                        rr.add(finding("POSBOUND", fi, c, f"`{txt}` treats the column just after a segment (start + width) as part of it: on a wrapped row that ends one cell short of the width - a double-width character that did not fit - `up` / `down` with the preferred column on that last cell, or a click on it, lands on the first offset of the next row", construct=f"closed segment end: {txt}"))
+    return rr
+
+
 def run(ctx: Ctx):
     p = ctx.p
     return [
@@ -383,6 +415,7 @@ def run(ctx: Ctx):
         rule_pref_col_reset(ctx),
         rule_alphabet(ctx),
         rule_alphabet_strict(ctx),
+        rule_segment_half_open(ctx),
         rule_same_text(ctx),
         rule_clamped_cursor_read(ctx),
         _row_range(ctx),
@@ -396,6 +429,8 @@ def run(ctx: Ctx):
 _F = "urwid/widget/edit.py"
 _N = "urwid/numedit.py"
 MUTANTS = [
+    Mut("line-pos-closed-segment-end", "urwid/text_layout.py", "calc_line_pos", "if current_sc <= pref_col < current_sc + s.sc:", "if current_sc <= pref_col <= current_sc + s.sc:", "POSBOUND|text_layout.calc_line_pos"),
+    Mut("twin-line-pos-mirrored", "urwid/text_layout.py", "calc_line_pos", "if current_sc <= pref_col < current_sc + s.sc:", "if current_sc + s.sc > pref_col >= current_sc:", twin=True),
     Mut("numedit-case-mapped-membership", _N, "NumEdit.valid_char", "if ch in self._allowed or (ch.isascii() and ch.upper() in self._allowed):", "if ch.upper() in self._allowed:", "ALPHABET|numedit.NumEdit.valid_char|case-mapped"),
     Mut("numedit-digit-before-minus", _N, "NumEdit.valid_char", "                return not (self.edit_pos == 0 and self.edit_text[:1] == \"-\")\n", "                return True\n", "ALPHABET|numedit.NumEdit.valid_char|accepting return"),
     Mut("integeredit-default-dollar-anchor", _N, "IntegerEdit.__init__", "                validation_re = f\"[{allowed_chars}]+\"\n                if not re.fullmatch(validation_re, str(default), re.IGNORECASE | re.ASCII):", "                validation_re = f\"^[{allowed_chars}]+$\"\n                if not re.match(validation_re, str(default), re.IGNORECASE | re.ASCII):", "ALPHABET|numedit.IntegerEdit.__init__|validation with re.match"),
